@@ -74,8 +74,8 @@ ASSUMPTIONS = [
     "app configuration values are {} / {'k': n}; None <-> {} transitions are not generated",
 ]
 TIERS = {
-    "quick": {"runs": 2400, "chunk": 50, "max_ops": 12},
-    "thorough": {"runs": 30000, "chunk": 200, "max_ops": 12},
+    "quick": {"runs": 8000, "chunk": 125, "max_ops": 12},
+    "thorough": {"runs": 120000, "chunk": 500, "max_ops": 12},
 }
 REACH_PROBES = [
     "diamond_import", "package_sibling_changed", "running_task_survived", "hash_rename", "hash_dir_rename",
@@ -411,7 +411,7 @@ def close_changes(base: dict, loaded: dict, found: dict, use_wanted: bool, soft:
         if ctx in changed or ctx in soft:
             return
         via = cause["via"]
-        via = hop if via == "direct" else (via if via.split("+")[-1] == hop else f"{via}+{hop}")
+        via = hop if via == "direct" else (via if hop in via.split("+") else f"{via}+{hop}")
         changed[ctx] = {"op": cause["op"], "place": cause["place"], "via": via}
         work.append(ctx)
 
@@ -1238,10 +1238,17 @@ def run(scn: dict) -> dict:
                         w.probe("skipped_unknown_name")
                         continue
                 w.unreadable_abs = {os.path.join(w.dir, p) for p in disk.unreadable}
+                in_reload = [True]
                 if op.get("stall"):
                     k, secs = op["stall"]
-                    w.loop.at_iteration(k, lambda secs=secs: (w.loop.stall(secs), w.fault("stall"),
-                                                              w.probe("stall_during_reload")))
+
+                    def do_stall(secs=secs, in_reload=in_reload):
+                        w.loop.stall(secs)
+                        w.fault("stall")
+                        if in_reload[0]:
+                            w.probe("stall_during_reload")
+
+                    w.loop.at_iteration(k, do_stall)
                 judge.take_marks()
                 t0 = w.loop.vt
                 judge.last_reload_vt = t0
@@ -1251,6 +1258,7 @@ def run(scn: dict) -> dict:
                 except Exception as exc:  # pylint: disable=broad-except
                     judge.viol("C10.reload_raised", {"mode": label, "exc": type(exc).__name__},
                                f"pyscript.reload({mode!r}) raised {exc!r}")
+                in_reload[0] = False
                 await w.settle(0.0)
                 judge.after_load(mode, label, t0)
                 judge.reload_times.append({"t0": t0, "n_exec": judge.n_exec - n_before})
